@@ -153,6 +153,12 @@ def step (line : String) : String :=
   | "convert" :: iu :: ord :: rest =>
       convertOp (iu == "1") (if ord == "-" then [] else (ord.splitOn ",").map String.toNat!) (pairsOf rest)
   | ["clean", a] => "ok " ++ hexe (Pth.cleaned (hexd a))
+  -- the harness runs both drivers with the working directory "/"
+  | ["absolute_from", r, a] => "ok " ++ hexe (Pth.absoluteFrom ['/'] (hexd r) (hexd a))
+  | ["absolute_from_unit", u, a] => "ok " ++ hexe (Pth.absoluteFromUnit ['/'] (hexd u) (hexd a))
+  | ["specifier", a] => "ok " ++ toString (Pth.startsWithSpecifier (hexd a))
+  | ["components", a] => "ok " ++ list ((Pth.components (hexd a)).map Pth.compStr)
+  | ["spec_clean", a] => "ok " ++ hexe (Pth.Spec.clean (hexd a))
   | ["port_range", a] => "ok " ++ toString (Port.isPortRange (hexd a))
   -- specifications
   | ["spec_split_exec", a] => specSplit P.execFlags (hexd a)
